@@ -68,6 +68,7 @@ class RunCtx(object):
         self.skipped = None
         self.live_gens = []         # plain generators the program left suspended (closed at run end)
         self.late_actors = []       # fire-and-forget remote sides, joined at the very end
+        self.orphans = {}           # nid -> [node, Action, taken]: created in one place, entered in another
         self.trace = []             # cheap event log for the digest
         self.info = {}
 
@@ -127,6 +128,11 @@ class RunCtx(object):
             if mode == "fields":
                 def fn(e, cname=cname):
                     return {"xcls": cname, "xlen": len(exc_text(e))}
+                self.register_extractor(cls, fn)
+            elif mode == "collide":
+                def fn(e, cname=cname):
+                    return {"xcls": cname, "reason": "the extractor's own reason", "exception": "not.the.Class",
+                            "action_status": "succeeded"}
                 self.register_extractor(cls, fn)
             else:
                 def fn(e, cname=cname):
